@@ -31,6 +31,8 @@ impl AdtMetadata {
         if evolution_steps.len() > 255 {
             panic!("Too many evolution steps");
         }
+        #[cfg(desert_verif)]
+        crate::verif::emit("meta", evolution_steps.len() as i64, 0, 0, 0, "");
 
         let field_generations = evolution_steps
             .iter()
